@@ -63,10 +63,11 @@ ScaledCloseU(pv, pid, c, tol) ==
 AreaValueOK(a, z) == a[2] <= 1000000000 /\ CloseSMInt(a, z, TolArea)
 
 \* the relation the property states between a variant and the identity storage
-AreaRelOK(v, id) == LET c == v.k * v.k
-                        want == IF v.rev THEN NegSM(id.a) ELSE id.a
-                    IN  /\ ScaledCloseSM(v.a, want, c, TolArea + 2 * c)
-                        /\ v.sign = (IF v.rev THEN -id.sign ELSE id.sign)
+\* (nz: the cycle has non-zero area; the sign of a zero area under a real translation is rounding noise)
+AreaRelOK(v, id, nz) == LET c == v.k * v.k
+                            want == IF v.rev THEN NegSM(id.a) ELSE id.a
+                        IN  /\ ScaledCloseSM(v.a, want, c, TolArea + 2 * c)
+                            /\ nz => v.sign = (IF v.rev THEN -id.sign ELSE id.sign)
 PerRelOK(v, id) == ScaledCloseU(v.per, id.per, v.k, TolPer + 2 * v.k)
 
 RelClause(kind) == IF kind = "rev" THEN "C20.reverse_flips"
@@ -100,7 +101,7 @@ PolyVerdict(e) ==
               THEN {"C20.area_value"} ELSE {})
         \cup (IF embOK /\ simple /\ \E j \in EX : ~(vs[j].a[1] = ConventionSign(vs[j].pts) /\ vs[j].sign = ConventionSign(vs[j].pts))
               THEN {"C20.area_sign_convention"} ELSE {})
-        \cup (IF embOK THEN {RelClause(vs[j].kind) : j \in {q \in rel : ~AreaRelOK(vs[q], id)}} ELSE {})
+        \cup (IF embOK THEN {RelClause(vs[j].kind) : j \in {q \in rel : ~AreaRelOK(vs[q], id, Area2(P) # 0)}} ELSE {})
         \cup (IF embOK /\ simple THEN {RelClause(vs[j].kind) : j \in {q \in rel : vs[q].kind # "rev" /\ ~PerRelOK(vs[q], id)}} ELSE {})
         \cup (IF embOK /\ simple /\ \E j \in EX : ~PerimeterOK(vs[j].pts, vs[j].per, 3) THEN {"C20.perimeter"} ELSE {})
         \cup (IF embOK /\ simple /\ \E j \in J : ~(NavLaws(vs[j].nx, vs[j].pv, n) /\ NavSame(vs[j], id, n))
